@@ -15,7 +15,6 @@ from types import (
     ModuleType,
     SimpleNamespace,
 )
-from weakref import WeakKeyDictionary
 
 from .doc import (
     always_break,
@@ -1147,28 +1146,16 @@ def resolve_cnamedtuple_fieldnames(value):
     )
 
 
-# Keys: classes/constructors
-# Values: a tuple of fieldnames is resolving them was successful.
-#         Otherwise, an exception that was raised when attempting
-#         to resolve the fieldnames.
-_cnamedtuple_fieldnames_by_class = WeakKeyDictionary()
-
-
 # Examples of cnamedtuples:
 # - return value of time.strptime()
 # - return value of os.uname()
 def pretty_cnamedtuple(value, ctx, trailing_comment=None):
     cls = type(value)
-    if cls not in _cnamedtuple_fieldnames_by_class:
-        try:
-            fieldnames = resolve_cnamedtuple_fieldnames(value)
-        except Exception as exc:
-            fieldnames = exc
-        _cnamedtuple_fieldnames_by_class[cls] = fieldnames
-
-    fieldnames = _cnamedtuple_fieldnames_by_class[cls]
-    if isinstance(fieldnames, Exception):
-        raise fieldnames
+    # The fieldnames are resolved from the repr of the value at hand on
+    # every call. Caching the outcome (success or failure) per class made
+    # the output for a value depend on which instance of its class
+    # happened to be printed first.
+    fieldnames = resolve_cnamedtuple_fieldnames(value)
 
     return pretty_call_alt(
         ctx,
